@@ -13,9 +13,9 @@
      obegin o / obs o n                  reader o is about to read / has read ActiveConnections() = n *)
 EXTENDS LiteBalance, TraceLib
 
-VARIABLES cfg, open, lat, rrPrev, ctb, cte, cub, cue, ob
+VARIABLES cfg, open, lat, rrPrev, ctb, cte, cub, cue, ob, sel
 
-tv == <<cfg, open, lat, rrPrev, ctb, cte, cub, cue, ob>>
+tv == <<cfg, open, lat, rrPrev, ctb, cte, cub, cue, ob, sel>>
 tvars == <<vars, tv, l>>
 
 Put(f, k, v) == [x \in DOMAIN f \cup {k} |-> IF x = k THEN v ELSE f[x]]
@@ -27,21 +27,23 @@ PosOf(list, b) == LET S == {i \in 1..Len(list) : list[i] = b} IN IF S = {} THEN 
 TInit == /\ CursorInit
          /\ cfg = [strategy |-> "", list |-> <<>>, up |-> {}]
          /\ open = <<>> /\ lat = <<>> /\ rrPrev = 0
-         /\ ctb = 0 /\ cte = 0 /\ cub = 0 /\ cue = 0 /\ ob = <<>>
+         /\ ctb = 0 /\ cte = 0 /\ cub = 0 /\ cue = 0 /\ ob = <<>> /\ sel = <<>>
          /\ sc = 0 /\ remaining = <<>> /\ tries = <<>> /\ result = ""
 
 TReset == /\ IsEv("reset")
           /\ cfg' = [strategy |-> Rec.strategy, list |-> Rec.list, up |-> AsSet(Rec.up)]
           /\ open' = <<>> /\ lat' = <<>> /\ rrPrev' = 0
-          /\ ctb' = 0 /\ cte' = 0 /\ cub' = 0 /\ cue' = 0 /\ ob' = <<>>
+          /\ ctb' = 0 /\ cte' = 0 /\ cub' = 0 /\ cue' = 0 /\ ob' = <<>> /\ sel' = <<>>
 
-TLat == IsEv("lat") /\ lat' = Put(lat, Rec.b, Rec.ms) /\ UNCHANGED <<cfg, open, rrPrev, ctb, cte, cub, cue, ob>>
+TLat == IsEv("lat") /\ lat' = Put(lat, Rec.b, Rec.ms) /\ UNCHANGED <<cfg, open, rrPrev, ctb, cte, cub, cue, ob, sel>>
 
 TAttempt == /\ IsEv("attempt")
             /\ Rec.id \notin DOMAIN open
             /\ AttemptOK(cfg.strategy, cfg.list, Rec.tries, Rec.result, cfg.up, ActiveOf(open), lat, rrPrev)
             /\ open' = IF Rec.result = "open" THEN Put(open, Rec.id, Canon(Rec.tries[Len(Rec.tries)])) ELSE open
             /\ rrPrev' = IF Len(Rec.tries) = 1 THEN PosOf(cfg.list, Rec.tries[1]) ELSE 0
+            /\ sel' = Append(sel, IF Rec.result = "open" THEN Canon(Rec.tries[Len(Rec.tries)]) ELSE <<>>)
+            /\ RRFair(cfg.strategy, cfg.list, cfg.up, sel')
             /\ UNCHANGED <<cfg, lat, ctb, cte, cub, cue, ob>>
 
 \* fault: the backend that accepted connection id reset it before anything was forwarded
@@ -53,22 +55,24 @@ TAbort == /\ IsEv("abort")
           /\ Canon(Rec.tries[Len(Rec.tries)]) \in cfg.up
           /\ Order(cfg.strategy, cfg.list, Rec.tries, ActiveOf(open), lat, rrPrev)
           /\ rrPrev' = IF Len(Rec.tries) = 1 THEN PosOf(cfg.list, Rec.tries[1]) ELSE 0
+          /\ sel' = Append(sel, Canon(Rec.tries[Len(Rec.tries)]))
+          /\ RRFair(cfg.strategy, cfg.list, cfg.up, sel')
           /\ UNCHANGED <<cfg, open, lat, ctb, cte, cub, cue, ob>>
 
 TOpened == IsEv("opened") /\ Rec.id \notin DOMAIN open /\ open' = Put(open, Rec.id, <<>>)
-           /\ UNCHANGED <<cfg, lat, rrPrev, ctb, cte, cub, cue, ob>>
+           /\ UNCHANGED <<cfg, lat, rrPrev, ctb, cte, cub, cue, ob, sel>>
 TClose == IsEv("close") /\ Rec.id \in DOMAIN open /\ open' = Drop1(open, Rec.id)
-          /\ UNCHANGED <<cfg, lat, rrPrev, ctb, cte, cub, cue, ob>>
+          /\ UNCHANGED <<cfg, lat, rrPrev, ctb, cte, cub, cue, ob, sel>>
 TCount == IsEv("count") /\ Rec.n = Cardinality(DOMAIN open) /\ UNCHANGED tv
 
-TTb == IsEv("tb") /\ ctb' = ctb + 1 /\ UNCHANGED <<cfg, open, lat, rrPrev, cte, cub, cue, ob>>
-TTe == IsEv("te") /\ cte < ctb /\ cte' = cte + 1 /\ UNCHANGED <<cfg, open, lat, rrPrev, ctb, cub, cue, ob>>
-TUb == IsEv("ub") /\ cub' = cub + 1 /\ UNCHANGED <<cfg, open, lat, rrPrev, ctb, cte, cue, ob>>
-TUe == IsEv("ue") /\ cue < cub /\ cue' = cue + 1 /\ UNCHANGED <<cfg, open, lat, rrPrev, ctb, cte, cub, ob>>
+TTb == IsEv("tb") /\ ctb' = ctb + 1 /\ UNCHANGED <<cfg, open, lat, rrPrev, cte, cub, cue, ob, sel>>
+TTe == IsEv("te") /\ cte < ctb /\ cte' = cte + 1 /\ UNCHANGED <<cfg, open, lat, rrPrev, ctb, cub, cue, ob, sel>>
+TUb == IsEv("ub") /\ cub' = cub + 1 /\ UNCHANGED <<cfg, open, lat, rrPrev, ctb, cte, cue, ob, sel>>
+TUe == IsEv("ue") /\ cue < cub /\ cue' = cue + 1 /\ UNCHANGED <<cfg, open, lat, rrPrev, ctb, cte, cub, ob, sel>>
 \* LiteCount's CountOK over the interval of the read: reader o announces the read (obegin),
 \* reads, and reports the value (obs)
 TOBegin == IsEv("obegin") /\ ob' = Put(ob, Rec.o, [te |-> cte, ue |-> cue])
-           /\ UNCHANGED <<cfg, open, lat, rrPrev, ctb, cte, cub, cue>>
+           /\ UNCHANGED <<cfg, open, lat, rrPrev, ctb, cte, cub, cue, sel>>
 TObs == IsEv("obs") /\ Rec.o \in DOMAIN ob
         /\ ob[Rec.o].te - cub <= Rec.n /\ Rec.n <= ctb - ob[Rec.o].ue /\ Rec.n >= 0
         /\ UNCHANGED tv
